@@ -1386,7 +1386,8 @@ static int upipe_ts_encaps_control(struct upipe *upipe,
             return upipe_ts_encaps_set_max_length(upipe, max_length);
         }
         case UPIPE_FLUSH:
-            return upipe_ts_encaps_flush_input(upipe);
+            upipe_ts_encaps_flush_input(upipe);
+            return UBASE_ERR_NONE;
 
         case UPIPE_TS_MUX_GET_CC: {
             UBASE_SIGNATURE_CHECK(args, UPIPE_TS_MUX_SIGNATURE)
